@@ -33,6 +33,9 @@ def evaluate(rep: Report, results: List[Dict[str, Any]], props: Sequence[str], a
         if r.get("error"):
             rep.broken.append(f"cell {r['id']} crashed the harness: {r['error'].strip().splitlines()[-1]}")
             continue
+        for c in r["clauses"]:
+            if c["prop"] == "HANG":       # a non-terminating library call violates whatever property the cell belongs to
+                c["prop"] = props[0]
         mine = [c for c in r["clauses"] if c["prop"] in props]
         eng = [c for c in r["clauses"] if c["prop"] == "ENGINE"]
         for c in eng:
